@@ -83,6 +83,9 @@ def make_case(rng):
     elif r < 0.68 and len(terms) >= 2:
         kind = "ll1-follow-ring"
         prods = gram.gen_follow_ring_grammar(rng, terms)
+    elif r < 0.72 and len(terms) >= 3:
+        kind = "ll1-epsilon-only"
+        prods = gram.gen_epsilon_only_grammar(rng, terms)
     else:
         kind = "ll1-constructed"
         for _ in range(8):
